@@ -18,10 +18,10 @@ def native_check(cfg, env=None, seed=0, scale=1.0):
     am = C.np_params(st.rbm_am)
     marg = np.array([C.marginal_np(am, v) for v in C.bits(nv)])
     before = {(net, n): p.detach().clone() for net in st.networks for n, p in getattr(st, net).named_parameters()}
-    psi = st.psi(space).numpy()
-    prob = st.probability(space).numpy()
+    psi = st.psi(space).detach().numpy()
+    prob = st.probability(space).detach().numpy()
     Z = float(st.normalization(space))
-    amp = st.amplitude(space).numpy()
+    amp = st.amplitude(space).detach().numpy()
     if psi.shape != (2, 2 ** nv):
         fails.append(("psi-shape", psi.shape))
     else:
@@ -33,10 +33,10 @@ def native_check(cfg, env=None, seed=0, scale=1.0):
         fails.append(("normalization != sum of probabilities", Z - marg.sum()))
     if not C.close(amp ** 2, marg) or (amp < 0).any():
         fails.append(("amplitude^2 != marginal or negative", (amp ** 2 - marg).tolist()))
-    E = st.rbm_am.effective_energy(space).numpy()
+    E = st.rbm_am.effective_energy(space).detach().numpy()
     if not C.close(np.exp(-E), marg):
         fails.append(("exp(-effective_energy) != marginal", (np.exp(-E) - marg).tolist()))
-    ph = st.phase(space).numpy()
+    ph = st.phase(space).detach().numpy()
     if cfg["kind"] == "complex":
         pm = C.np_params(st.rbm_ph)
         margp = np.array([C.marginal_np(pm, v) for v in C.bits(nv)])
@@ -51,14 +51,14 @@ def native_check(cfg, env=None, seed=0, scale=1.0):
             fails.append(("positive psi not real non-negative", None))
     # normalised probabilities, Z handed over as a Python float and as the tensor normalization() returns
     for zform, zz in (("Python float", Z), ("tensor", st.normalization(space)), ("awkward float", 0.1 * Z)):
-        pn = st.probability(space, zz).numpy() * (0.1 if zform == "awkward float" else 1.0)
+        pn = st.probability(space, zz).detach().numpy() * (0.1 if zform == "awkward float" else 1.0)
         if not np.allclose(pn * Z, marg, rtol=1e-12, atol=0) or abs(pn.sum() - 1.0) > 1e-12:
             fails.append(("probability(v, Z) with Z as a %s: not exp(-E)/Z at double precision" % zform, float(np.max(np.abs(pn * Z / marg - 1.0)))))
     # basis states handed over in other tensor types
     for tname, conv in (("int64", lambda t: t.long()), ("bool", lambda t: t.bool()), ("float32", lambda t: t.float()), ("uint8", lambda t: t.to(torch.uint8))):
         vv = conv(space)
-        if not C.close(st.psi(vv).numpy(), psi) or not C.close(st.probability(vv).numpy(), prob) or not C.close(st.amplitude(vv).numpy(), amp) \
-                or not C.close(st.phase(vv).numpy(), ph) or not C.close(st.psi(vv[-1]).numpy(), psi[:, -1]):
+        if not C.close(st.psi(vv).detach().numpy(), psi) or not C.close(st.probability(vv).detach().numpy(), prob) or not C.close(st.amplitude(vv).detach().numpy(), amp) \
+                or not C.close(st.phase(vv).detach().numpy(), ph) or not C.close(st.psi(vv[-1]).detach().numpy(), psi[:, -1]):
             fails.append(("psi / probability / amplitude / phase of basis states given as a %s tensor differ from the double-precision call" % tname, None))
     # history: the same object after its parameters were rearranged in place (entries exchanged inside a tensor, so that
     # sums, norms and shapes of every tensor stay what they were): every quantity follows the current parameters
@@ -69,13 +69,13 @@ def native_check(cfg, env=None, seed=0, scale=1.0):
                     p.copy_(p.flatten().roll(1).reshape(p.shape))
     am2 = C.np_params(st.rbm_am)
     marg2 = np.array([C.marginal_np(am2, v) for v in C.bits(nv)])
-    if not C.close(float(st.normalization(space)), marg2.sum()) or not C.close(st.probability(space).numpy(), marg2) \
-            or not C.close(np.exp(-st.rbm_am.effective_energy(space).numpy()), marg2):
+    if not C.close(float(st.normalization(space)), marg2.sum()) or not C.close(st.probability(space).detach().numpy(), marg2) \
+            or not C.close(np.exp(-st.rbm_am.effective_energy(space).detach().numpy()), marg2):
         fails.append(("history: after the parameters were rearranged in place, normalization / probability / effective energy are not those of the current parameters",
                       float(st.normalization(space)) - marg2.sum()))
     if cfg["kind"] == "complex":
         pm2 = C.np_params(st.rbm_ph)
-        if not C.close(st.phase(space).numpy(), 0.5 * np.log(np.array([C.marginal_np(pm2, v) for v in C.bits(nv)]))):
+        if not C.close(st.phase(space).detach().numpy(), 0.5 * np.log(np.array([C.marginal_np(pm2, v) for v in C.bits(nv)]))):
             fails.append(("history: after the parameters were rearranged in place, the phase is not that of the current parameters", None))
     with torch.no_grad():
         for (net, n), p in before.items():
@@ -99,7 +99,7 @@ def native_check(cfg, env=None, seed=0, scale=1.0):
     # vector call forms
     for r in (0, 2 ** nv - 1):
         v = space[r]
-        if not C.close(st.probability(v).numpy(), prob[r]) or not C.close(st.psi(v).numpy(), psi[:, r]):
+        if not C.close(st.probability(v).detach().numpy(), prob[r]) or not C.close(st.psi(v).detach().numpy(), psi[:, r]):
             fails.append(("vector call form disagrees with batched", r))
     for net in st.networks:
         for n, p in getattr(st, net).named_parameters():
@@ -133,17 +133,17 @@ def large_regime(cfg, seed=0, scale=10.0):
             out.append(b @ v + logsumexp([float(np.dot(h, th)) for h in itertools.product((0.0, 1.0), repeat=nh)]))
         return np.array(out)
     lm = log_marginal(C.np_params(st.rbm_am))
-    E = st.rbm_am.effective_energy(space).numpy()
+    E = st.rbm_am.effective_energy(space).detach().numpy()
     if not np.all(np.isfinite(E)) or not np.allclose(-E, lm, rtol=1e-9, atol=1e-9):
         fails.append(("large parameters: -effective_energy != log of the hidden marginal", float(np.nanmax(np.abs(-E - lm)))))
     with np.errstate(over="ignore"):
-        lp = np.log(st.probability(space).numpy())
+        lp = np.log(st.probability(space).detach().numpy())
     ok = np.isfinite(lm) & (lm < 700)
     if not np.allclose(lp[ok], lm[ok], rtol=1e-9, atol=1e-9):
         fails.append(("large parameters: log probability != log of the hidden marginal", float(np.nanmax(np.abs(lp[ok] - lm[ok])))))
     if cfg["kind"] == "complex":
         lmp = log_marginal(C.np_params(st.rbm_ph))
-        ph = st.phase(space).numpy()
+        ph = st.phase(space).detach().numpy()
         if not np.all(np.isfinite(ph)) or not np.allclose(ph, 0.5 * lmp, rtol=1e-9, atol=1e-9):
             fails.append(("large parameters: phase != -E_mu/2", float(np.nanmax(np.abs(ph - 0.5 * lmp)))))
     return fails
@@ -169,7 +169,7 @@ def tied_regime(cfg):
         st.rbm_am.hidden_bias.fill_(0.25)
         st.rbm_am.visible_bias.copy_(b)
     space = st.generate_hilbert_space(nv)
-    prob = st.probability(space).numpy()
+    prob = st.probability(space).detach().numpy()
     Z = float(st.normalization(space))
     fails = []
     if abs(Z - prob.sum()) > 1e-9 * prob.sum():
